@@ -119,6 +119,13 @@ def build_coq(log=None):
     """Full .vo build of the development (no-op when current). Returns (ok, output)."""
     with BuildLock():
         gen_consts()
+        try:
+            import gen_c17
+            gen_c17.main()
+        except Exception as e:  # noqa: BLE001
+            sys.stderr.write("gen_c17 failed: %s\n" % e)
+        if newer([os.path.join(COQ, "_CoqProject")], os.path.join(COQ, "Makefile")):
+            run(["coq_makefile", "-f", "_CoqProject", "-o", "Makefile"], cwd=COQ)
         if not os.path.exists(os.path.join(COQ, "Makefile")):
             run(["coq_makefile", "-f", "_CoqProject", "-o", "Makefile"], cwd=COQ)
         p = run(["timeout", "3000", "make", "-j%d" % NPROC], cwd=COQ, check=False)
@@ -341,13 +348,12 @@ def check_assumptions(prop):
     pfile = os.path.join(COQ, "properties", "%s.v" % prop)
     if not os.path.exists(pfile):
         return None, ""
-    p = run(["coqc", "-Q", "theories", "Mcap", "-Q", "properties", "McapProps", "-o", os.path.join(WORK, "%s.%d.vo" % (prop, os.getpid())),
+    tmpd = os.path.join(WORK, "pa.%s.%d" % (prop, os.getpid()))
+    os.makedirs(tmpd, exist_ok=True)
+    p = run(["coqc", "-Q", "theories", "Mcap", "-Q", "properties", "McapProps", "-o", os.path.join(tmpd, "%s.vo" % prop),
              pfile], cwd=COQ, check=False)
     out = p.stdout.decode(errors="replace")
-    try:
-        os.remove(os.path.join(WORK, "%s.%d.vo" % (prop, os.getpid())))
-    except OSError:
-        pass
+    shutil.rmtree(tmpd, ignore_errors=True)
     closed = len(re.findall(r"Closed under the global context", out))
     axioms = re.findall(r"^Axioms:\n((?:.+\n)+)", out, re.M)
     return (p.returncode == 0, closed, axioms), out
